@@ -66,9 +66,11 @@ def run(chk):
                     continue
                 cur = float(cur)
                 direct = prop in ("a", "b", "c") or (prop == "radius" and cls in ("ConvexSpheropolygon", "ConvexSpheropolyhedron"))
-                for k in ks:
+                # targets cur * 2^k, and fine adjustments by a few parts per million (a positive target is honoured however close it is
+                # to the current value)
+                for k in list(ks) + ["+fine", "-fine"]:
                     obj, _ = Z.make(cls, tilt=tilt, opposing=opp)
-                    tgt = cur * 2.0 ** k
+                    tgt = cur * (2.0 ** k if not isinstance(k, str) else (1 + 2.0 ** -18 if k == "+fine" else 1 - 2.0 ** -20))
                     p0, s0, c0 = geometry(obj)
                     iq0 = C.excname(getattr, obj, "iq") if hasattr(type(obj), "iq") else ("na", None)
                     st, _ = C.excname(setattr, obj, prop, tgt)
@@ -150,7 +152,8 @@ def translation(chk, cls, prop, tilt, rng, opp):
         obj, _ = Z.make(cls, tilt=tilt, opposing=opp)
         p0, s0, c0 = geometry(obj)
         tgt = np.array([float(x) for x in rng.integers(-8, 9, 3)]) / 2
-        st, _ = C.excname(setattr, obj, prop, tgt.copy())
+        given = tgt.copy()
+        st, _ = C.excname(setattr, obj, prop, given)
         chk.case([cls, prop, tgt.tolist(), tilt], True)
         desc = dict(cls=cls, prop=prop, target=tgt.tolist(), tilted=tilt)
         if st != "ok":
@@ -163,6 +166,17 @@ def translation(chk, cls, prop, tilt, rng, opp):
             chk.violation("translation-changed-size", dict(desc))
         if p0 is not None and not np.allclose(p1 - p0, tgt - c0, rtol=0, atol=RT * size * 10):
             chk.violation("not-a-translation", dict(desc, displacement=(p1 - p0).tolist()))
+        # the array that was assigned stays the caller's: later size changes of the shape must not write into it, and the caller
+        # re-using it must not move the shape (nor any other shape that was given the same array)
+        size_prop = next((q for q in ("volume", "area", "radius", "a") if q in Z.settable_properties(obj)), None)
+        if size_prop is not None:
+            st2, _ = C.excname(lambda: setattr(obj, size_prop, 1.5 * float(getattr(obj, size_prop))))
+            if st2 == "ok" and not np.array_equal(given, tgt):
+                chk.violation("assigned-array-stored", dict(desc, what="a later size assignment wrote into the array that was assigned as %s" % prop, array_now=given.tolist()))
+        before = np.asarray(getattr(obj, prop), float).copy()
+        given += 3.0
+        if not np.array_equal(np.asarray(getattr(obj, prop), float), before):
+            chk.violation("assigned-array-stored", dict(desc, what="changing the assigned array afterwards moved the shape's %s" % prop))
         chk.count("translation")
 
 
